@@ -63,6 +63,13 @@ func (c *context) ParseGo() bool {
 				break
 			}
 		}
+		if !c.Errs.HasError() {
+			// Only errors that logPackageError leaves out (the ones `go list`
+			// reports itself, such as an import cycle): don't fail silently.
+			for _, err := range pkgs[0].Errors {
+				c.Errs.GeneralError(err)
+			}
+		}
 		return false
 	}
 
